@@ -3,7 +3,6 @@ import Hv.Generated.FactsC13
 
 namespace Hv.C13
 
-set_option maxRecDepth 100000 in
 /-- The kernel-checked decision for the facts extracted from /repo on this run. -/
 theorem verdict :
     (classify Generated.factsC13).Sound (Full Generated.factsC13) (HoldsExcept (cfgOf Generated.factsC13)) :=
@@ -22,6 +21,7 @@ theorem verdict :
 #print axioms apply_refines_spec_partial
 #print axioms apply_error_class
 #print axioms op_agrees
+#print axioms apply_agrees_spec_nosplice_partial
 #print axioms Hv.Patch.applyOps_agrees
 #print axioms Hv.Patch.applyOps_error_class_conv
 #print axioms Hv.Patch.noSplice_single
@@ -38,6 +38,7 @@ theorem verdict :
 #print axioms Hv.Patch.gw_refines
 #print axioms Hv.Patch.WireCfg.holds_of_agrees
 #print axioms Hv.Patch.WireCfg.not_holds_of_disagree
+#print axioms Hv.Patch.lists_differ
 #print axioms Hv.Patch.witness_wire_truncated
 #print axioms Hv.Patch.witness_wire_swapped
 #print axioms witness_spliced_opaque
